@@ -84,11 +84,22 @@ def finish(a, P, results, seed, t0):
             unlisted.append(v)
     rc = 0
     os.makedirs(os.path.join(HERE, 'replays', pid), exist_ok=True)
+    # one VIOLATION line per (unit, handler case): the obligation whose counter-model reproduced natively is preferred; the other
+    # failed obligations of the same case are listed inside its replay file
+    groups = {}
     for v in unlisted:
+        case = re.split(r'/path\d+|/loop\d+|/pre\.|/type\.|#', v['obligation'])[0]
+        groups.setdefault((v['unit'], case), []).append(v)
+    reported = []
+    for (unit, case), vs in groups.items():
+        vs.sort(key=lambda v: 0 if (v.get('replay') or {}).get('status') == 'reproduced' else 1)
+        head = dict(vs[0]); head['also_failed'] = [x['obligation'] for x in vs[1:]]
+        reported.append(head)
+    for v in reported:
         rp = v.get('replay') or {}
         path = os.path.join('replays', pid, sanitize(v['obligation']) + '.json')
         doc = {'property': pid, 'obligation': v['obligation'], 'unit': v['unit'], 'verifier_output': v.get('model'),
-               'replay': rp, 'tier': a.tier}
+               'replay': rp, 'tier': a.tier, 'other_failed_obligations_of_this_case': v.get('also_failed', [])}
         json.dump(doc, open(os.path.join(HERE, path), 'w'), indent=1, default=str)
         suffix = '' if rp.get('status') == 'reproduced' else ' no-failing-input-found'
         print(f'VIOLATION property={pid} replay={path}{suffix}')
